@@ -248,11 +248,13 @@ def run(tier):
         for alg in ("ico", "cube3D", "randomS"):
             pool += [(alg, int(n)) for n in rng.choice(np.arange(4, 200), size=8, replace=False)] + [(alg, 2), (alg, 3)]
         for alg in ("cube4D", "randomQ"):
-            pool += [(alg, int(n)) for n in rng.choice(np.arange(4, 100), size=6, replace=False)] + [(alg, 3)]
-        machines, steps = 640, 50
+            pool += [(alg, int(n)) for n in rng.choice(np.arange(4, 48), size=6, replace=False)] + [(alg, 3)]
+        n4 = min(n for a, n in pool if a == "cube4D" and n >= 4)
+        pool += [("randomQ", n4), ("ico", n4), ("cube3D", 2 * n4), ("randomS", 2 * n4)]
+        machines, steps = 320, 40
         prefix_jobs = []
-        for alg, n_max in (("ico", 700), ("cube3D", 700), ("cube4D", 272)):
-            ns = list(range(1, n_max))
+        for alg, n_max, ns in (("ico", 700, list(range(1, 700))), ("cube3D", 700, list(range(1, 700))),
+                               ("cube4D", 272, list(range(1, 121)) + list(range(124, 272, 8)) + [271])):
             prefix_jobs += [(alg, n_max, ns[k::8]) for k in range(8)]
     pool = sorted(set(pool))
     refs_list = pmap(_ref_job, pool)
